@@ -654,6 +654,12 @@ func (rb *replayBuilder) testSource(ct *Contract, ob *Obligation, argExprs []str
 		fmt.Fprintf(&body, "\tvar %s %s = %s\n", n, rb.typeStr(in.T), argExprs[i])
 	}
 	args := strings.Join(names, ", ")
+	argsP := args // the function's own parameters (the logical variables follow them)
+	np := len(names)
+	if !ct.IsLemma && ct.Fn != nil && len(ct.Fn.Params) < len(names) {
+		np = len(ct.Fn.Params)
+		argsP = strings.Join(names[:np], ", ")
+	}
 	if ct.IsLemma {
 		for k, cl := range ct.Requires {
 			fmt.Fprintf(&body, "\tfmt.Printf(\"VERIF-REPLAY pre%d=%%v\\n\", %s(%s))\n", k, cl.FnName, args)
@@ -665,7 +671,7 @@ func (rb *replayBuilder) testSource(ct *Contract, ob *Obligation, argExprs []str
 		body.WriteString("\t}()\n")
 	} else {
 		for k, cl := range ct.Requires {
-			fmt.Fprintf(&body, "\tfmt.Printf(\"VERIF-REPLAY pre%d=%%v\\n\", %s(%s))\n", k, cl.FnName, args)
+			fmt.Fprintf(&body, "\tfmt.Printf(\"VERIF-REPLAY pre%d=%%v\\n\", %s(%s))\n", k, cl.FnName, argsP)
 		}
 		var oldNames []string
 		for j, ob := range ct.Olds {
@@ -683,9 +689,9 @@ func (rb *replayBuilder) testSource(ct *Contract, ob *Obligation, argExprs []str
 		}
 		call := ""
 		if fn.Signature.Recv() != nil {
-			call = fmt.Sprintf("%s.%s(%s)", names[0], fn.Name(), strings.Join(names[1:], ", "))
+			call = fmt.Sprintf("%s.%s(%s)", names[0], fn.Name(), strings.Join(names[1:np], ", "))
 		} else {
-			call = fmt.Sprintf("%s(%s)", fn.Name(), strings.Join(names, ", "))
+			call = fmt.Sprintf("%s(%s)", fn.Name(), strings.Join(names[:np], ", "))
 		}
 		if fn.Signature.Variadic() {
 			call = strings.TrimSuffix(call, ")") + "...)"
